@@ -128,6 +128,9 @@ theorem tagClause_val (info : Option FieldInfo) (ds : List Char) (n : Nat) (h : 
     tagClause info ("val:".toList ++ ds) = some { info.getD {} with val := n } := by
   simp [tagClause, stripPrefix, h]
 
+theorem no_comma_kw (kw ds : List Char) (h1 : ',' ∉ kw) (h2 : ',' ∉ ds) : ',' ∉ kw ++ ds := by
+  simp [h1, h2]
+
 theorem byteCount_range (n : Nat) (h : n < 2 ^ 64) : 1 ≤ byteCount n ∧ byteCount n ≤ 8 := by
   have := byteCount_spec' n h
   exact ⟨this.1, this.2.1⟩
